@@ -32,6 +32,7 @@ pub fn phases(prop: &str, tier: Tier) -> Vec<Phase> {
         ],
         "C14" => vec![
             Phase { name: "c14-sweep", units: 13, seeded: false },
+            Phase { name: "c14-sparse", units: 13, seeded: false },
             Phase { name: "foreign-large", units: 3, seeded: false },
             Phase { name: "foreign-seeded", units: if q { 1500 } else { 200_000 }, seeded: true },
         ],
@@ -58,12 +59,14 @@ pub fn phases(prop: &str, tier: Tier) -> Vec<Phase> {
         ],
         "C10" => vec![
             Phase { name: if q { "c10-sweep3" } else { "c10-sweep5" }, units: 13, seeded: false },
+            Phase { name: "c10-user-shape", units: 13, seeded: false },
             Phase { name: "hw-seeded", units: if q { 1000 } else { 150_000 }, seeded: true },
             Phase { name: if q { "pair-sweep3" } else { "pair-sweep5" }, units: 13, seeded: false },
             Phase { name: "pair-seeded", units: if q { 300 } else { 40_000 }, seeded: true },
         ],
         "C11" => vec![
             Phase { name: "crash-path", units: 4, seeded: false },
+            Phase { name: "crash-tear", units: if q { 160 } else { 8000 }, seeded: true },
             Phase { name: if q { "crash-sampled" } else { "crash-full" }, units: if q { 320 } else { 4000 }, seeded: true },
         ],
         "C12" => vec![Phase { name: "wfault", units: if q { 640 } else { 150_000 }, seeded: true }],
@@ -124,6 +127,7 @@ pub fn run_unit(prop: &str, phase: &str, unit: u64, seed: u64, _tier: Tier, ctx:
         "c15-sweep5" => crate::fam_histr::sweep_unit(unit, 5, ctx, ctl),
         "c15-sweep6" => crate::fam_histr::sweep_unit(unit, 6, ctx, ctl),
         "c03-sweep" => crate::fam_foreign::c03_sweep_unit(unit, ctx, ctl),
+        "c14-sparse" => crate::fam_foreign::sparse_unit(unit, ctx, ctl),
         "foreign-large" => crate::fam_foreign::large_unit(unit, ctx, ctl),
         "c14-sweep" => crate::fam_foreign::c14_sweep_unit(unit, ctx, ctl),
         "foreign-seeded" => {
@@ -160,8 +164,10 @@ pub fn run_unit(prop: &str, phase: &str, unit: u64, seed: u64, _tier: Tier, ctx:
         }
         "c09-sweep4" => crate::fam_histw::c09_sweep_unit(unit, 4, ctx, ctl),
         "c09-sweep6" => crate::fam_histw::c09_sweep_unit(unit, 6, ctx, ctl),
+        "c10-user-shape" => crate::fam_histw::fake_unit(unit, ctx, ctl),
         "c10-sweep3" => crate::fam_histw::c10_sweep_unit(unit, 3, ctx, ctl),
         "c10-sweep5" => crate::fam_histw::c10_sweep_unit(unit, 5, ctx, ctl),
+        "crash-tear" => crate::fam_crash::tear_unit(derive(seed, "C11/tear", unit), ctx, ctl),
         "crash-path" => crate::fam_crash::path_unit(unit, ctx, ctl),
         "crash-sampled" => crate::fam_crash::unit(derive(seed, "C11/crash", unit), 20_000, ctx, ctl),
         "crash-full" => crate::fam_crash::unit(derive(seed, "C11/crash", unit), usize::MAX, ctx, ctl),
@@ -210,7 +216,7 @@ pub fn meta(prop: &str) -> PropMeta {
         },
         "C14" => PropMeta {
             level: "exploration",
-            rule: "c14-sweep: 13 types x n=1..4 records of pairwise different sizes x all n! physical orders x {no filler, short filler, filler that looks like a record header}, enumerated; foreign-seeded: seeded files with shuffled physical order, random even-length filler (some looking like record headers) before/between/after records, short-read schedules, BufReader capacities. distinct as for C03.",
+            rule: "c14-sweep: 13 types x n=1..4 records of pairwise different sizes x all n! physical orders x {no filler, short filler, filler that looks like a record header}, enumerated; c14-sparse: 13 types x 5 layouts of a sparse source of up to 4 GiB whose records sit at and beyond the 2 GiB boundary, in non-physical index order; foreign-seeded: seeded files with shuffled physical order, random even-length filler (some looking like record headers) before/between/after records, short-read schedules, BufReader capacities. distinct as for C03.",
             explanation: "The reference encoder places records at arbitrary offsets and writes the matching .shx; the real reader opened with_shx must yield one item per index entry in index order, each equal to the record at that entry, agree with read_nth_shape(i) and shape_count(). Reach counter: seeks issued during indexed iteration.",
             exhaustive: true,
         },
@@ -234,13 +240,13 @@ pub fn meta(prop: &str) -> PropMeta {
         },
         "C10" => PropMeta {
             level: "exploration",
-            rule: "c10-sweep: all 13x12 ordered (file type, offered type) pairs x all histories over {write a, write b, finalize} that start with a write, up to length 3 (quick) / 5 (thorough) x every position of the rejected call, enumerated completely; hw-seeded: seeded longer histories. distinct = distinct (type, call pattern, index, stack) tuples.",
+            rule: "c10-sweep: all 13x12 ordered (file type, offered type) pairs x all histories over {write a, write b, finalize} that start with a write, up to length 3 (quick) / 5 (thorough) x every position of the rejected call, enumerated completely; c10-user-shape: for each file type, a user-defined EsriShape (the trait is public) of another type announcing sizes from 0 to u64::MAX; hw-seeded: seeded longer histories; pair-sweep / pair-seeded: the complete writer (the rejected pair must not touch the .dbf either). distinct = distinct (type, call pattern, index, stack) tuples.",
             explanation: "The rejected call must return MismatchShapeType{file type, offered type}, have an empty device-event range, and the final files must equal those of the history with the rejected calls deleted.",
             exhaustive: true,
         },
         "C11" => PropMeta {
             level: "fault_enumeration",
-            rule: "one unit = one seeded workload (type, 1..5 tagged shapes, 0..3 finalize calls anywhere, Direct or BufWriter stack, with index) run once; then every .shp cut point (every event boundary and every byte inside every write) is read without index, and every (shp cut, shx cut) pair - all of them in the thorough tier, an evenly strided sample of at most 20000 per workload in the quick tier - is read with index (sequential + random access at every entry). evaluations = crash states judged; distinct = distinct (workload, shp image hash, shx image hash) triples actually read; duplicates are skipped and counted in reach. crash-path: 28 deterministic by-path scenarios on the real file system: a (longer) shapefile already exists at the path, ShapeWriter::from_path writes new shapes with an optional finalize and then crashes (mem::forget: buffered bytes are lost).",
+            rule: "one unit = one seeded workload (type, 1..5 tagged shapes, 0..3 finalize calls anywhere, Direct or BufWriter stack, with index) run once; then every .shp cut point (every event boundary and every byte inside every write) is read without index, and every (shp cut, shx cut) pair - all of them in the thorough tier, an evenly strided sample of at most 20000 per workload in the quick tier - is read with index (sequential + random access at every entry). evaluations = crash states judged; distinct = distinct (workload, shp image hash, shx image hash) triples actually read; duplicates are skipped and counted in reach. crash-tear: seeded files of 20..420 small records (so that the header length field changes in more than its last byte), every crash state inside the header rewrites of finalize/drop, read without and with the (complete) index; crash-path: 28 deterministic by-path scenarios on the real file system: a (longer) shapefile already exists at the path, ShapeWriter::from_path writes new shapes with an optional finalize and then crashes (mem::forget: buffered bytes are lost).",
             explanation: "Crash states are reconstructed from the recorded event log, not by re-running the writer. Oracle: Ok items before the first Err are a prefix of the shapes written; random access returns shape i or an error; shapes written before a finalize whose Flush on the .shp is inside the prefix are all readable without index.",
             exhaustive: false,
         },
